@@ -12,6 +12,7 @@ EXTENDS Integers, Sequences, FiniteSets, TLC, Json
 CONSTANTS LB,          \* look-back constant (20 in the code)
           Prefill,     \* rows stored before the exploration starts
           MaxDepth, MaxLen, MaxMulti,
+          MaxBatch,    \* longest batch of batch_add_candle (0: action disabled)
           QLookback,   \* TRUE = as the code
           Export
 VARIABLES arr, nextv, err, pre, op, hist
@@ -35,19 +36,37 @@ Look(s, ts, i, bound) ==       \* result: [e |-> error, p |-> position replaced 
   ELSE IF s[Pos(i, Len(s))][1] = ts THEN [e |-> "none", p |-> Pos(i, Len(s))]
   ELSE Look(s, ts, i + 1, bound)
 
+\* add_candle as a function: [s |-> series afterwards, e |-> exception]
+ImplAdd(s, c) ==
+  LET ts == c[1] IN
+  IF s = <<>> \/ ts > Last(s)[1] THEN [s |-> Append(s, c), e |-> "none"]
+  ELSE IF ts = Last(s)[1] THEN [s |-> [s EXCEPT ![Len(s)] = c], e |-> "none"]
+  ELSE IF QLookback
+       THEN LET r == Look(s, ts, 0, Max2(LB, Len(s) - 1)) IN
+            [s |-> IF r.p # 0 THEN [s EXCEPT ![r.p] = c] ELSE s, e |-> r.e]
+       ELSE [s |-> IF ts \in TsSet(s) THEN [s EXCEPT ![PosOf(s, ts)] = c] ELSE s, e |-> "none"]
 Add(ts) ==
   /\ err = "none" /\ ts >= 1
-  /\ LET c == <<ts, nextv>> IN
-     /\ IF arr = <<>> \/ ts > Last(arr)[1] THEN arr' = Append(arr, c) /\ err' = "none"
-        ELSE IF ts = Last(arr)[1] THEN arr' = [arr EXCEPT ![Len(arr)] = c] /\ err' = "none"
-        ELSE IF QLookback
-             THEN LET r == Look(arr, ts, 0, Max2(LB, Len(arr) - 1)) IN
-                  /\ err' = r.e
-                  /\ arr' = IF r.p # 0 THEN [arr EXCEPT ![r.p] = c] ELSE arr
-             ELSE /\ err' = "none"
-                  /\ arr' = IF ts \in TsSet(arr) THEN [arr EXCEPT ![PosOf(arr, ts)] = c] ELSE arr
-     /\ pre' = arr /\ op' = [k |-> "add", ts |-> ts] /\ nextv' = nextv + 1
-     /\ H([k |-> "add", ts |-> ts, v |-> nextv])
+  /\ LET r == ImplAdd(arr, <<ts, nextv>>) IN arr' = r.s /\ err' = r.e
+  /\ pre' = arr /\ op' = [k |-> "add", ts |-> ts] /\ nextv' = nextv + 1
+  /\ H([k |-> "add", ts |-> ts, v |-> nextv])
+
+\* batch_add_candle (warm-up injection, imports): one add_candle per row, in order.  The rows after the first
+\* may repeat a timestamp of the batch, step back, or go on (two overlapping exchange pages in one batch)
+RECURSIVE ImplBatch(_, _, _)
+ImplBatch(s, rows, j) ==
+  IF j > Len(rows) THEN [s |-> s, e |-> "none"]
+  ELSE LET r == ImplAdd(s, rows[j]) IN IF r.e # "none" THEN r ELSE ImplBatch(r.s, rows, j + 1)
+Batch(tss) ==
+  /\ err = "none" /\ Len(arr) + Len(tss) <= MaxLen + MaxBatch
+  /\ LET rows == [j \in 1..Len(tss) |-> <<tss[j], nextv + j - 1>>]
+         r == ImplBatch(arr, rows, 1) IN arr' = r.s /\ err' = r.e
+  /\ pre' = arr /\ op' = [k |-> "batch", tss |-> tss] /\ nextv' = nextv + Len(tss)
+  /\ H([k |-> "batch", tss |-> tss, v |-> nextv])
+\* batches: any first timestamp, then each further row repeats / follows / precedes the one before it
+RECURSIVE Walks(_, _)
+Walks(first, n) == IF n = 1 THEN {<<first>>}
+                   ELSE {Append(w, w[Len(w)] + d) : w \in Walks(first, n - 1), d \in {0, 2, -2}}
 
 \* add_multiple_1m_candles: n consecutive minutes (timestamps step 2 in this model's scale) starting at ts
 Gapless(s) == \A j \in 1..(Len(s) - 1) : s[j + 1][1] = s[j][1] + 2
@@ -69,7 +88,9 @@ Cands == IF arr = <<>> THEN {2} ELSE (Max2(arr[1][1] - 1, 1)) .. (Last(arr)[1] +
 Edge == Export => PrintT(<<"EDGE", ToJson([hist |-> hist', post |-> SubSeq(arr', Max2(1, Len(arr') - 5), Len(arr')), err |-> err'])>>)
 AddAny == \E ts \in Cands : Len(arr) < MaxLen /\ Add(ts)
 MultiAny == \E ts \in {t \in Cands : t % 2 = 0}, n \in 1..MaxMulti : Multi(ts, n)
-NextM == AddAny \/ MultiAny
+BatchAny == \E ts \in {t \in Cands : t % 2 = 0}, n \in 2..MaxBatch : \E w \in Walks(ts, n) :
+               (\A j \in 1..n : w[j] >= 1) /\ Batch(w)
+NextM == AddAny \/ MultiAny \/ BatchAny
 Next == NextM /\ Edge
 SpecM == Init /\ [][NextM]_vars            \* model checking (per-action coverage)
 Spec == Init /\ [][Next]_vars              \* the same with the EDGE export
@@ -100,5 +121,15 @@ MultiOK ==
     THEN err = "none" /\ Len(arr) = m /\ SubSeq(arr, 1, m - n) = SubSeq(pre, 1, m - n)
          /\ \A j \in 1..n : arr[m - n + j][1] = ts + 2 * (j - 1) /\ arr[m - n + j] # pre[m - n + j]
     ELSE err # "none" /\ arr = pre
+\* a batch is the list-level upsert of its rows in order (an unknown older row is ignored)
+LUpsert(s, c) == IF s = <<>> \/ c[1] > Last(s)[1] THEN Append(s, c)
+                 ELSE IF c[1] \in TsSet(s) THEN [j \in 1..Len(s) |-> IF s[j][1] = c[1] THEN c ELSE s[j]] ELSE s
+RECURSIVE LUpsertAll(_, _, _)
+LUpsertAll(s, tss, j) == IF j > Len(tss) THEN s ELSE LUpsertAll(LUpsert(s, <<tss[j], 0>>), tss, j + 1)
+BatchOK ==
+  op.k = "batch" =>
+    LET exp == LUpsertAll(pre, op.tss, 1) IN
+    err = "none" => (Len(arr) = Len(exp) /\ \A j \in 1..Len(exp) : arr[j][1] = exp[j][1]
+                                                /\ (exp[j] \in {pre[i] : i \in 1..Len(pre)} <=> arr[j] = exp[j]))
 NoErrorOnStored == (op.k = "add" /\ op.ts \in TsSet(pre)) => err = "none"
 =============================================================================
